@@ -50,10 +50,11 @@ def type_ok(kind, v):
         return type(v) is dict
     if kind == "none":
         return False
-    if isinstance(kind, list) and kind[0] == "choices":
+    if isinstance(kind, list) and kind[0] in ("choices", "choice-str", "choice-list"):
+        # in_choices(c): one of c or an array of them; (c, False): one of c only; (c, True): an array only
         if type(v) is list:
-            return all(type(x) is str and x in kind[1] for x in v)
-        return type(v) is str and v in kind[1]
+            return kind[0] != "choice-str" and all(type(x) is str and x in kind[1] for x in v)
+        return kind[0] != "choice-list" and type(v) is str and v in kind[1]
     raise AssertionError(kind)
 
 
@@ -120,7 +121,8 @@ def c_string(s):
 
 def c_kind(k):
     if isinstance(k, list):
-        return "(vchoices %s)" % c_list([c_string(x) for x in k[1]])
+        fn = {"choices": "vchoices", "choice-str": "vchoice_str", "choice-list": "vchoice_list"}[k[0]]
+        return "(%s %s)" % (fn, c_list([c_string(x) for x in k[1]]))
     return "(vk %s)" % c_string(k)
 
 
@@ -162,7 +164,12 @@ def make_registry(rk, cfg):
         return cls()
     extra = {}
     for n, k, r in cfg["extra"]:
-        extra[n] = HeaderParameter("caller registered", in_choices(list(k[1])) if isinstance(k, list) else k, r)
+        if isinstance(k, list):
+            v = {"choices": lambda c: in_choices(c), "choice-str": lambda c: in_choices(c, False),
+                 "choice-list": lambda c: in_choices(c, True)}[k[0]](list(k[1]))
+        else:
+            v = k
+        extra[n] = HeaderParameter("caller registered", v, r)
     return cls(header_registry=extra, algorithms=cfg["allowed"], strict_check_header=cfg["strict"])
 
 
@@ -239,13 +246,14 @@ def own_jwe(rng, protected, unprotected, recips, compact):
 B64_STRS = ["", "ab", "QUJD", "x-y_z0"]
 OTHER_STRS = ["x", "https://e.example/k", "http://e/x", "ftp://e/x", "http:/e", "HTTP://E/x", " https://e",
               "httpss://e", "https:/", "http://", "é", "sig", "DEF", "HS256", "b64", "a"]
-NONSTR = [0, 1, -5, 2 ** 70, True, False, 1.5, 1.0, None, [], ["a"], ["b64"], ["kid", "alg"], ["a", 1], [1],
+NONSTR = [0, 1, -5, 2 ** 70, True, False, 1.5, 1.0, None, [], ["a"], ["b", "a"], ["a", "zz"], ["b64"], ["kid", "alg"], ["a", 1], [1],
           [None], [[]], [{}], [["a"]], {}, {"kty": "oct", "k": "AQ"}, {"alg": 1}]
 ALL_VALUES = B64_STRS + OTHER_STRS + NONSTR
 JWS_NAMES = list(JWS_REG)
 ALGSPEC = ["epk", "apu", "apv", "iv", "tag", "p2s", "p2c", "skid"]
 CALLER = [("x-str", "str"), ("x-int", "int"), ("x-bool", "bool"), ("x-url", "url"), ("x-list", "list[str]"),
-          ("x-jwk", "jwk"), ("x-none", "none"), ("x-ch", ["choices", ["a", "b", "sig"]])]
+          ("x-jwk", "jwk"), ("x-none", "none"), ("x-ch", ["choices", ["a", "b", "sig"]]),
+          ("x-one", ["choice-str", ["a", "b", "sig"]]), ("x-many", ["choice-list", ["a", "b", "sig"]])]
 UNKNOWN = ["foo", "ALG", "x5t#s256", "", "kid ", "é", "exp"]
 ALL_NAMES = ["enc", "zip", "b64"] + JWS_NAMES + ALGSPEC + [n for n, _ in CALLER] + UNKNOWN
 
